@@ -14,7 +14,7 @@ import re
 
 from ..model import call_name, dotted, walk_no_nested
 from ..registry import rule
-from ..taint import EMPTY, SET, VAL, Config, Engine
+from ..taint import EMPTY, ORDL, SET, VAL, Config, Engine
 
 GEN_MODULES = ("ffcx.codegeneration.C.", "ffcx.codegeneration.numba.")
 
@@ -40,6 +40,8 @@ def _is_sink(fa, call, name):
 
 # ufl.algorithms.analysis.extract_type "Build a set of all objects found in a whose class is in ufl_types"
 LIBRARY_SET_RETURNING = {"extract_type"}
+# ufl.cell.Cell: `sub_entity_types(dim)` returns tuple(set(...)) of Cell objects; facet_types, ridge_types, edge_types, face_types, peak_types, vertex_types wrap it
+LIBRARY_SET_ORDERED_TUPLES = {"facet_types", "ridge_types", "sub_entity_types", "edge_types", "face_types", "peak_types"}
 
 STABLE_ELEM_ANN = ("set[int]", "set[bool]", "set[tuple[int, ...]]", "set[basix.CellType]", "frozenset[int]")
 
@@ -85,6 +87,11 @@ class OrderClient(Config):
             last = node.func.attr if isinstance(node.func, ast.Attribute) else (call_name(node) or "")
             if last in LIBRARY_SET_RETURNING:
                 return frozenset({(SET, fa.site(node, "library-set:" + last))})
+        # Not a source here: ufl.Cell.facet_types / ridge_types are tuple(set(<Cell objects>)), whose order changes with the hash seed, but
+        # each element is processed on its own and only the *insertion order* of the (cell type, rule) maps filled from them is affected.
+        # Treating the tuple as order-tainted makes every per-kernel loop over such a map (which filters one cell type) a report on
+        # the unchanged tree. The consequence that matters - the order in which kernels are emitted - is decided by GEN-CODE-ORDER
+        # (generate_code interpreted under every insertion order of the map).
         return EMPTY
 
     def sink(self, fa, call, name):
